@@ -168,6 +168,7 @@ type Exec struct {
 	pendingWriteBacks []func()
 	maybeNil          map[string]string
 	rvals             map[string]*rdesc
+	returnsSeen       map[*Clause]bool
 	boxInfo           map[string]boxRec
 	rfieldNames       map[string]string
 	modDepth          int
